@@ -12,7 +12,7 @@ EXPLANATION = (
     "maps), transitivity, stability of the sort and the exact SKIP/LIMIT positions — all value-level."
     " C20.5: (Int, Int) ends in the exact i64 comparison and (Bool, Bool) in the bool comparison."
     " C20.6: in parse_order_by the direction stored in an item is assigned on every path of the current loop iteration."
-    " C20.8: compile_return_plan and compile_with_plan build the Distinct node before the OrderBy / Skip / Limit nodes, so the window is cut from the distinct rows. C20.7: every Plan::Skip handler (each Skip arm of a switch over Plan in the executor, and execute_skip) uses no end-removing primitive and every Plan::Limit handler no front-removing one."
+    " C20.9: in the ORDER BY comparator a direction test sits on the same iteration as the order_compare call and reads the direction of the key whose values are compared. C20.8: compile_return_plan and compile_with_plan build the Distinct node before the OrderBy / Skip / Limit nodes, so the window is cut from the distinct rows. C20.7: every Plan::Skip handler (each Skip arm of a switch over Plan in the executor, and execute_skip) uses no end-removing primitive and every Plan::Limit handler no front-removing one."
 )
 
 VAL = "nervusdb_query::executor::core_types::Value"
@@ -37,6 +37,7 @@ def run(ctx):
     ctx.rule("C20.4", "the ORDER BY sort compares through order_compare")
     window_rule(ctx)
     distinct_order_rule(ctx)
+    per_key_direction_rule(ctx)
     vadt = ctx.adt(VAL)
     dmap = {v["name"]: v["discr"] for v in vadt["variants"]}
     discr_of = dict(dmap)
@@ -265,3 +266,114 @@ def distinct_order_rule(ctx, rid="C20.8"):
                                "%s wraps the %s node into Distinct: rows are sorted / sliced first and deduplicated afterwards, so `RETURN DISTINCT x ORDER BY x "
                                "LIMIT 2` over [1,1,2,3] returns [1] instead of [1,2]" % (short, later), "%s:%d" % (b.file, b.line_of_block(d)))
     ctx.floor(rid, "Distinct vs OrderBy / Skip / Limit construction pairs", n, 6)
+
+
+def _split_tuple(ty):
+    """top-level components of a tuple type string "(A, B)"; None when ty is not a tuple"""
+    ty = ty.strip()
+    if not (ty.startswith("(") and ty.endswith(")")):
+        return None
+    out, depth, cur = [], 0, ""
+    for ch in ty[1:-1]:
+        if ch in "(<[":
+            depth += 1
+        elif ch in ")>]":
+            depth -= 1
+        if ch == "," and depth == 0:
+            out.append(cur.strip())
+            cur = ""
+        else:
+            cur += ch
+    if cur.strip():
+        out.append(cur.strip())
+    return out
+
+
+def _place_ty(b, pl):
+    """type of a place as far as '*' and tuple-field projections decide it; None when another projection is involved"""
+    ty = b.local_ty(pl[0])
+    for pr in pl[1]:
+        if pr == "*":
+            if ty.startswith("&mut "):
+                ty = ty[5:]
+            elif ty.startswith("&"):
+                ty = ty[1:]
+                if ty.startswith("'"):
+                    ty = ty.split(" ", 1)[1] if " " in ty else ty
+            else:
+                return None
+        elif isinstance(pr, list) and pr[0] == "f" and pr[-1] == "(tuple)":
+            parts = _split_tuple(ty)
+            if parts is None or pr[1] >= len(parts):
+                return None
+            ty = parts[pr[1]]
+        else:
+            return None
+    return ty
+
+
+def per_key_direction_rule(ctx, rid="C20.9"):
+    """every ORDER BY key is compared under its own direction"""
+    F = ctx.facts
+    DIR = "nervusdb_query::ast::Direction"
+    ctx.rule(rid, "in the ORDER BY comparator every test of a sort direction sits in the body that calls order_compare, on the same iteration "
+             "(one dominates the other), and the direction tested is projected out of the same per-key element as the compared values "
+             "(`ORDER BY a DESC, b` applies DESC to a only)")
+    bodies = [ctx.body(ORDER_BY)] + [b for b in F.bodies.values() if b.root == ORDER_BY]
+
+    def key_block(b, local):
+        """block in which the element a value was projected from was bound (follows reborrows)"""
+        o = b.origin(local)
+        if o and o[0] == "place":
+            base = o[1][0]
+            ds = [d for d in b.defs().get(base, []) if d[2] in ("assign", "call")]
+            if len(ds) == 1:
+                return ("bb", ds[0][0])
+            return ("place-bb", o[2])
+        if o and o[0] == "call":
+            return ("call", o[1].bb)
+        if o and o[0] == "arg":
+            return ("arg", o[1])
+        return ("?", local)
+
+    tests = []
+    for b in bodies:
+        cmps = [c for c in b.calls() if c.name == OC]
+        for c in b.calls():
+            if c.name.startswith("<%s as core::cmp::PartialEq>::" % DIR) and c.args and c.args[0][0] in ("c", "m"):
+                tests.append((b, c.bb, c.args[0][1][0], cmps))
+        for bi, blk in enumerate(b.blocks):
+            if b.is_cleanup(bi):
+                continue
+            for st in blk["s"]:
+                if st[0] == "a" and st[2][0] == "discr" and _place_ty(b, st[2][1]) == DIR:
+                    pl = st[2][1]
+                    tests.append((b, bi, pl, cmps))
+    ctx.floor(rid, "direction tests in the ORDER BY comparator", len(tests), 1)
+    for k, (b, bi, what, cmps) in enumerate(tests):
+        short = b.id.split("execute_order_by")[-1] or "(fn)"
+        where = "%s:%d" % (b.file, b.line_of_block(bi))
+        same = [c for c in cmps if b.dominates(c.bb, bi) or b.dominates(bi, c.bb)]
+        ctx.instance(rid, "direction test #%d in execute_order_by%s bb%d: order_compare calls on the same iteration: %d" % (k, short, bi, len(same)))
+        if not ctx.oblige(bool(same), rid, "%s:direction-test-away-from-compare#%d" % (rid, k),
+                          "execute_order_by%s tests a sort direction in a body / on a path with no order_compare call of the same iteration: the direction "
+                          "applied is not the one of the key that decided the comparison (`ORDER BY a DESC, b` would sort b descending too)" % short, where):
+            continue
+        if isinstance(what, list):      # a discriminant read on a projected place: the element is the base local
+            base = what[0]
+            if all(p == "*" for p in what[1]):
+                dk = key_block(b, base)
+            else:
+                ds = [d for d in b.defs().get(base, []) if d[2] in ("assign", "call")]
+                dk = ("bb", ds[0][0]) if len(ds) == 1 else ("?", base)
+        else:
+            dk = key_block(b, what)
+        vks = []
+        for c in same:
+            for a in c.args[:2]:
+                if a[0] in ("c", "m"):
+                    vks.append(key_block(b, a[1][0]))
+        ctx.instance(rid, "direction test #%d: direction bound at %s, compared values bound at %s" % (k, dk, sorted(set(vks))))
+        ctx.oblige(dk in vks, rid, "%s:direction-of-another-key#%d" % (rid, k),
+                   "execute_order_by%s: the direction tested (%s) is not projected out of the per-key element whose values are compared (%s): "
+                   "one key's direction decides the order of another key" % (short, dk, sorted(set(vks))), where)
